@@ -10,6 +10,10 @@ Reads its raw configuration from context['p'] (given through the step's `in`):
   fails     [name|null]  per-execution script (by execution count of this tag): error class to raise
   failRest  name|null    what to do once the script is exhausted
   msg       str          message of the raised error (default 'boom <tag>')
+  cause     str          how the error is raised: 'from:<Class>' = `raise err from <Class>('low level')` (explicit
+                         __cause__), 'none:<Class>' = inside `except <Class>`: `raise err from None`,
+                         'context:<Class>' = inside `except <Class>`: `raise err` (implicit __context__).
+                         The error the step raises is `err` in every case (the model has no use for `cause`).
 """
 import builtins
 
@@ -32,7 +36,44 @@ class FalsyError(Exception):
         return 0
 
 
+class FalsyBoolError(Exception):
+    """an exception object whose truth value is False by __bool__"""
+
+    def __bool__(self):
+        return False
+
+
+class EqAllError(Exception):
+    """an exception object that claims to be equal to everything (and is hashable)"""
+
+    def __eq__(self, other):
+        return True
+
+    def __hash__(self):
+        return 7
+
+
+def _raise(err, cause):
+    """raise `err` the way `cause` says (see the module docstring)"""
+    if isinstance(cause, str) and ':' in cause:
+        how, _, cname = cause.partition(':')
+        low = _cls(cname)('low level')
+        if how == 'from':
+            raise err from low
+        try:
+            raise low
+        except Exception:
+            if how == 'none':
+                raise err from None
+            raise err
+    raise err
+
+
 def _cls(name):
+    if name == 'vprobe.FalsyBoolError':
+        return FalsyBoolError
+    if name == 'vprobe.EqAllError':
+        return EqAllError
     if name == 'vprobe.ProbeError':
         return ProbeError
     if name == 'vprobe.OtherError':
@@ -79,8 +120,8 @@ def run_step(context):
     msg = cfg.get('msg') if isinstance(cfg.get('msg'), str) else 'boom ' + tag
     if 'failIf' in cfg:
         if context.get_formatted_as_type(cfg['failIf'], out_type=bool):
-            raise ProbeError(msg)
+            _raise(ProbeError(msg), cfg.get('cause'))
     script = cfg.get('fails') if isinstance(cfg.get('fails'), list) else []
     scripted = script[cnt - 1] if cnt - 1 < len(script) else cfg.get('failRest')
     if isinstance(scripted, str):
-        raise _cls(scripted)(msg)
+        _raise(_cls(scripted)(msg), cfg.get('cause'))
